@@ -245,6 +245,49 @@ def num_eval(e, defs, vals, weight_name, depth=0):
             return {ast.Add: a + b, ast.Sub: a - b, ast.Mult: a * b, ast.Div: a / b if b else None, ast.Pow: a ** b}[type(e.op)]
         except (OverflowError, ZeroDivisionError, ValueError):
             return None
+    ev_ = lambda x: num_eval(x, defs, vals, weight_name, depth + 1)
+    if isinstance(e, ast.Compare) and len(e.ops) == 1:
+        a, b = ev_(e.left), ev_(e.comparators[0])
+        if a is None or b is None:
+            return None
+        import operator as _op
+
+        f_ = {ast.Gt: _op.gt, ast.GtE: _op.ge, ast.Lt: _op.lt, ast.LtE: _op.le}.get(type(e.ops[0]))
+        return float(f_(a, b)) if f_ else None
+    if isinstance(e, ast.IfExp):
+        c = ev_(e.test)
+        return None if c is None else (ev_(e.body) if c else ev_(e.orelse))
+    if isinstance(e, ast.Call):
+        last = norm_text(e.func).split(".")[-1]
+        lib = norm_text(e.func).startswith(("torch.", "np.", "numpy.", "math.")) or isinstance(e.func, ast.Name)
+        args = list(e.args) if lib else ([e.func.value] + list(e.args) if isinstance(e.func, ast.Attribute) else list(e.args))
+        kw = {k.arg: k.value for k in e.keywords}
+        if last == "where" and lib and len(args) == 3:
+            c = ev_(args[0])
+            return None if c is None else (ev_(args[1]) if c else ev_(args[2]))
+        if last == "where" and not lib and len(args) == 3:  # x.where(cond, other)
+            c = ev_(args[1])
+            return None if c is None else (ev_(args[0]) if c else ev_(args[2]))
+        if last in ("minimum", "maximum", "min", "max", "fmin", "fmax") and len(args) == 2:
+            a, b = ev_(args[0]), ev_(args[1])
+            if a is None or b is None:
+                return None
+            return min(a, b) if last in ("minimum", "min", "fmin") else max(a, b)
+        if last in ("clamp", "clip", "clamp_max", "clamp_min") and args:
+            x = ev_(args[0])
+            lo = kw.get("min", args[1] if len(args) > 1 and last in ("clamp", "clip", "clamp_min") else None)
+            hi = kw.get("max", args[2] if len(args) > 2 else (args[1] if len(args) > 1 and last == "clamp_max" else None))
+            if x is None:
+                return None
+            for bnd, f_ in ((lo, max), (hi, min)):
+                if bnd is not None and not (isinstance(bnd, ast.Constant) and bnd.value is None):
+                    bv = ev_(bnd)
+                    if bv is None:
+                        return None
+                    x = f_(x, bv)
+            return x
+        if last in ("tensor", "as_tensor", "float", "item", "to", "detach", "clone", "squeeze", "unsqueeze") and args:
+            return ev_(args[0])
     if isinstance(e, ast.Call) and norm_text(e.func).split(".")[-1] in ("mul", "div", "true_divide", "multiply", "divide") and isinstance(e.func, ast.Attribute) and len(e.args) == 1 \
             and not norm_text(e.func).startswith(("torch.", "np.")):
         a, b = num_eval(e.func.value, defs, vals, weight_name, depth + 1), num_eval(e.args[0], defs, vals, weight_name, depth + 1)
@@ -317,7 +360,65 @@ def cap_rule(index, ctx, cls, fwd):
                     ctx.require(good, "R4", f"{H.short}: `{norm_text(stmt)[:80]}`", "weights · max_norm / ||weights·matrix|| at 3 sample points",
                                 f"`{norm_text(stmt)[:80]}` does not multiply the weights by max_norm / ||weights·matrix||: the returned vector does not have norm max_norm when the bound is exceeded", H.loc(stmt))
     if not found:
+        # the cap written as one expression (torch.where / clamp / minimum): evaluated in both regimes — exceeding (expected factor max_norm/n) and
+        # within the bound (expected factor 1)
+        for H in hosts:
+            hnode = split_walrus(H.node)
+            defs = _single_defs(hnode)
+            for outer in [n for n in ast.walk(hnode) if isinstance(n, ast.If)]:
+                o = oriented(outer.test, lambda e: self_attr(e) == "max_norm") if isinstance(outer.test, ast.Compare) and len(outer.test.ops) == 1 else None
+                if not (o and o[1] is ast.Gt and isinstance(o[2], ast.Constant) and o[2].value == 0):
+                    continue
+                for st_ in [x for b_ in outer.body for x in ast.walk(b_) if isinstance(x, ast.Assign) and len(x.targets) == 1 and isinstance(x.targets[0], ast.Name)]:
+                    wname = st_.targets[0].id
+                    if wname not in {x.id for x in ast.walk(st_.value) if isinstance(x, ast.Name)}:
+                        continue
+                    if not any(isinstance(c, ast.Call) and norm_text(c.func).split(".")[-1] in ("where", "clamp", "clip", "minimum", "min", "clamp_max", "fmin") for c in ast.walk(st_.value)) \
+                            and not any(isinstance(c, ast.IfExp) for c in ast.walk(st_.value)):
+                        continue
+                    found += 1
+                    defs2 = {k_: v_ for k_, v_ in defs.items() if k_ != wname}
+                    bad = None
+                    for n_, M_ in ((3.0, 0.5), (0.7, 0.25), (5.0, 2.0), (0.3, 0.5), (1.5, 2.5), (0.1, 4.0)):
+                        got = num_eval(st_.value, defs2, {"n": n_, "M": M_}, wname)
+                        if got is None:
+                            bad = "?"
+                            break
+                        want = M_ / n_ if n_ > M_ else 1.0
+                        if abs(got - want) > 1e-9 * max(1.0, want):
+                            bad = f"with ||weights·matrix|| = {n_:g} and max_norm = {M_:g} the weights are multiplied by {got:g}, expected {want:g}"
+                            break
+                    key = f"{H.short}: `{norm_text(st_)[:80]}`"
+                    if bad == "?":
+                        ctx.undecided("R4", key, "the capping expression is not built from the weights, the norm and max_norm with + - * / ** where/clamp/minimum", H.loc(st_))
+                    else:
+                        ctx.require(bad is None, "R4", key, "factor max_norm/||weights·matrix|| above the bound and 1 within it, at 6 sample points",
+                                    f"{bad}: the returned vector is not the capped one", H.loc(st_))
+    if not found:
         ctx.undecided("R4", "forward: the max_norm cap", "no `if <norm> > max_norm` under `if self.max_norm > 0` was found in forward or the methods it calls", fwd.loc())
+    else:
+        # every returning path of forward goes through the cap (in forward itself, or through a call of the method that holds it)
+        cap_hosts = set()
+        for H in hosts:
+            for outer in [n for n in ast.walk(H.node) if isinstance(n, ast.If)]:
+                if any(self_attr(x) == "max_norm" for x in ast.walk(outer.test)):
+                    cap_hosts.add(H.name)
+        fcfg = cfg_of(fwd.node)
+
+        def passes_cap(nd):
+            if nd.kind == "test" and hasattr(nd.ast, "test") and any(self_attr(x) == "max_norm" for x in ast.walk(nd.ast.test)):
+                return True
+            from ..cfg import own_exprs
+
+            return any(isinstance(c, ast.Call) and self_attr(c.func) in (cap_hosts - {fwd.name}) for e_ in own_exprs(nd) for c in ast.walk(e_))
+
+        rets = [p_ for p_ in fcfg.acyclic_paths() if p_ and isinstance(getattr(p_[-1], "ast", None), ast.Return) or any(isinstance(getattr(n_, "ast", None), ast.Return) for n_ in p_)]
+        missing = [p_ for p_ in rets if not any(passes_cap(n_) for n_ in p_)]
+        if rets:
+            wit = next((n_ for n_ in (missing[0] if missing else []) if isinstance(getattr(n_, "ast", None), ast.Return)), None)
+            ctx.require(not missing, "R4", "forward: every returning path applies the cap", f"{len(rets)} returning paths all pass the max_norm test",
+                        f"{len(missing)} of {len(rets)} returning paths of forward hand back weights without passing the max_norm test"
+                        + (f" (`{norm_text(wit.ast)[:70]}`)" if wit is not None else "") + ": those calls return vectors longer than max_norm", fwd.loc(wit.ast) if wit is not None else fwd.loc())
 
 
 def stored_is_returned_rule(ctx, cls):
@@ -569,6 +670,13 @@ def check(index, ctx):
             ctx.ok("R1", f"_NashMTLWeighting.{a}", rebuilt, fwd.loc())
         else:
             ctx.violated("R1", f"_NashMTLWeighting.{a}", f"state field self.{a} (written by {writers}) survives reset(): {why}", reset.loc())
+    # reset() may be the first thing called on a fresh object: it only touches attributes the constructor has created
+    lazily = sorted(a for a in loads(reset_node) if a not in init_st and a not in cls.methods and cls.lookup(a) is None and a in {x for m_, f_ in cls.methods.items() if m_ not in ("__init__", "reset") for x in stores(f_.node)})
+    for a in lazily:
+        site = next((n for n in ast.walk(reset_node) if isinstance(n, ast.Attribute) and self_attr(n) == a), None)
+        ctx.violated("R1", f"_NashMTLWeighting.reset reads self.{a}", f"reset() uses self.{a}, which the constructor does not create (it is first stored by "
+                     f"{sorted(m_ for m_, f_ in cls.methods.items() if m_ not in ('__init__', 'reset') and a in stores(f_.node))}): reset() on an object that has not been called yet raises AttributeError",
+                     reset.loc(site) if site is not None else reset.loc())
     for a in sorted(set(reset_st) - mutable):
         ok, why = reset_restores(a)
         ctx.require(ok or a not in init_expr, "R1", f"_NashMTLWeighting.{a} (reset only)", why, why, reset.loc(), nontrivial=False)
